@@ -409,6 +409,13 @@ def run_blocks(ctx, i):
         if ok:
             Er = E[np.ix_(keep, keep)]
             ctx.check(Hr.shape == Er.shape and np.array_equal(Hr, Er), "blocks.reduced", order=order, got=Hr, expected=Er, **W)
+    # an inversion of ONE linear object, with and without a regularization: its regularization matrix is that object's own matrix,
+    # or the all-zero block of its size
+    for j in (0, len(objs) - 1):
+        ok, Hs = ctx.guarded("blocks.single_object", lambda: _np(aa.Inversion(dataset=case["ds"], linear_obj_list=[objs[j]], settings=st).regularization_matrix).astype(float))
+        if ok:
+            Es = own[j] if own[j] is not None else np.zeros((sizes[j], sizes[j]))
+            ctx.check(Hs.shape == Es.shape and np.array_equal(Hs, Es), "blocks.single_object", object=desc[j], got=Hs, expected=Es)
     # the regularization matrix handed on through the library's own preload producer (two fits of identical inputs): a later
     # inversion that takes it from there still reports the all-zero blocks and the object order
     if any(o is not None for o in own):
